@@ -30,7 +30,7 @@ def main(chk, tier):
             os.remove(part)
         parts.append(part)
         rc = chk.run_bin(binp, ["c14", "--tier", tier, "--seed", chk.SEED, "--flavour", flavour, "--evidence", part,
-                                "--replay-dir", os.path.join(chk.VERIF, "replays"), "--known", chk.KNOWN, "--scale", chk.SCALE])
+                                "--replay-dir", chk.replay_dir(), "--known", chk.KNOWN, "--scale", chk.SCALE])
         if rc not in (0, 1):
             chk.die(f"C14: fipsim-ct ({flavour}) exited {rc}")
         worst = max(worst, rc)
